@@ -1,7 +1,10 @@
 (* C17 -- LayoutNested is total on the model of V.C18.Nested: for every good graph, with engines and a router
    that do not return errors, [layout] returns Ok: no Crash (nil dereference / index out of range), none of the
-   "could not find object ... after layout" errors, and the fuel [fuel_for g] = 2 * |objects| + 2 is never
-   exhausted (neither by the recursion on nested graphs nor by the work queue). *)
+   "could not find object ... after layout" errors, and the fuel [fuel_for g] = 3 * |objects| + 3 is never
+   exhausted (neither by the recursion on nested graphs nor by the work queue).  Why 3: a nested graph has strictly
+   fewer objects than its parent EXCEPT when a container is extracted together with itself (grid-cell container,
+   constant near); that can happen at most twice in a row with the same size: grid-cell container (the nested graph is
+   laid out as a plain diagram, so no further cell extraction), then constant near (its near key is cleared). *)
 From Coq Require Import List NArith Bool Arith Lia Permutation.
 Import ListNotations.
 Require Import V.Lib.RunCases V.C18.Nested V.C18.Spec V.C18.Dec V.C18.SortLemmas V.C18.Forest V.C18.Paths
@@ -11,12 +14,21 @@ Require Import V.Lib.RunCases V.C18.Nested V.C18.Spec V.C18.Dec V.C18.SortLemmas
 Definition H_core_total (engine : dtype -> graph -> option graph) : Prop := forall dt g, engine dt g <> None.
 Definition H_router_total (router : graph -> list edge -> bool) : Prop := forall g es, router g es = true.
 
-(* no object of the graph would be extracted together with itself at this level *)
+(* no object of the graph can be extracted together with itself at this level: not a grid, and no near key that
+   could make a constant near (whatever the names of the root's children are) *)
+Definition static_near (g : graph) (c : tree) : bool := Nat.eqb (g_level g) 0 && is_some (k_near (t_kind c)).
 Definition no_self (g : graph) (inf : info) : Prop :=
-  i_dt inf <> DGrid /\ forall i c, find_f i (g_roots g) = Some c -> i_near (nested_info g c) = false.
+  i_dt inf <> DGrid /\ forall i c, find_f i (g_roots g) = Some c -> static_near g c = false.
 
 Definition enough (f : nat) (g : graph) (inf : info) : Prop :=
-  2 * length (g_objs g) + 2 <= f \/ (2 * length (g_objs g) + 1 <= f /\ no_self g inf).
+  3 * length (g_objs g) + 3 <= f \/ (3 * length (g_objs g) + 2 <= f /\ i_dt inf <> DGrid)
+  \/ (3 * length (g_objs g) + 1 <= f /\ no_self g inf).
+
+Lemma i_near_static g c : i_near (nested_info g c) = true -> static_near g c = true.
+Proof.
+  unfold nested_info, static_near, is_const. simpl. intro H. apply andb_true_iff in H as [H1 H2].
+  apply andb_true_iff in H2 as [H2 _]. rewrite H1, H2. reflexivity.
+Qed.
 
 (* size of the work still queued, measured in the ORIGINAL forest *)
 Definition qsz (g0 : graph) (queue : list N) : nat :=
@@ -147,22 +159,11 @@ Section Total.
         apply mem_map_id in EC as [t [Ht Et]].
         pose proof (find_f_root _ t ND Ht) as Hft. rewrite Et, Hf in Hft. inversion Hft; subst t.
         destruct (step_cell_ex rec g0 G0 Hrec sv s c q cs I Q NF Hf Hf0 Hno Ht) as [Gin HX].
-        assert (Hfu : 2 * length (g_objs g0) + 2 <= S f).
-        { destruct Hfuel as [H|[_ [H _]]]; [exact H | congruence]. }
+        assert (Hfu : 3 * length (g_objs g0) + 3 <= S f).
+        { destruct Hfuel as [H|[[_ H]|[_ [H _]]]]; [exact H | congruence | congruence]. }
         destruct (Hrec_ok default_info (ex_ng c true (s_g s)) Gin) as [[ng' tr] R].
-        { right. split.
-          - simpl. pose proof (filter_length_le (ex_in c true) (g_objs (s_g s))). lia.
-          - split; [simpl; discriminate|]. intros i x Hx. simpl in Hx. unfold find_f in Hx. simpl in Hx.
-            destruct (find_t i c) as [y|] eqn:Ey; [|discriminate]. inversion Hx; subst y.
-            unfold nested_info. simpl.
-            assert (Hd : depth_of (s_g s) (t_id c) = 1%nat).
-            { unfold depth_of, absid. rewrite (path_f_root _ c ND Ht). reflexivity. }
-            rewrite Hd. replace (g_level (s_g s) + 1 - 1) with (g_level (s_g s)) by lia.
-            destruct c as [ci cn ck cks]. simpl in Ey. destruct (N.eqb i ci).
-            + inversion Ey; subst x. unfold is_default, nested_info in ED. simpl in ED.
-              apply andb_true_iff in ED as [ED _]. apply negb_true_iff in ED. exact ED.
-            + apply first_some_in in Ey as [z [Hz Ez]]. simpl in Hkids. rewrite forallb_forall in Hkids.
-              rewrite (no_near_is_some x (no_near_find i z x (Hkids z Hz) Ez)). apply andb_false_r. }
+        { right. left. split; [|simpl; discriminate].
+          simpl. pose proof (filter_length_le (ex_in c true) (g_objs (s_g s))). lia. }
         destruct (HX ng' tr R) as [s2 [E2 _]]. exists s2, []. split; [exact E2 | exact Hsz0].
       - destruct (negb (is_default (nested_info (s_g s) c))) eqn:ED.
         + destruct (negb (i_near (nested_info (s_g s) c)) && is_nil (t_kids c)) eqn:ES.
@@ -170,17 +171,17 @@ Section Total.
           * destruct (i_near (nested_info (s_g s) c)) eqn:EN.
             -- (* constant near *)
                assert (Hk : is_some (k_near (t_kind c)) = true).
-               { unfold nested_info in EN. simpl in EN. apply andb_true_iff in EN as [_ EN]. exact EN. }
+               { apply i_near_static in EN. unfold static_near in EN. apply andb_true_iff in EN as [_ EN]. exact EN. }
                destruct (step_near_ex rec g0 G0 Hrec s c (nested_info (s_g s) c) q cs I Q NF Hf Hf0 Hno EN Hk) as [Gin HX].
-               assert (Hfu : 2 * length (g_objs g0) + 2 <= S f).
-               { destruct Hfuel as [H|[_ [_ H]]]; [exact H|]. specialize (H _ _ Hf0).
-                 unfold nested_info in *. rewrite Hlev in EN. simpl in *. congruence. }
+               assert (Hfu : 3 * length (g_objs g0) + 2 <= S f).
+               { destruct Hfuel as [H|[[H _]|[_ [_ H]]]]; [lia | exact H|]. specialize (H _ _ Hf0).
+                 apply i_near_static in EN. unfold static_near in *. rewrite Hlev in EN. congruence. }
                destruct (Hrec_ok default_info (near_in c (s_g s)) Gin) as [[ng' tr] R].
-               { right. split.
+               { right. right. split.
                  - simpl. pose proof (filter_length_le (ex_in c true) (g_objs (s_g s))). lia.
                  - split; [simpl; discriminate|]. intros i x Hx. simpl in Hx. unfold find_f in Hx. simpl in Hx.
                    destruct (find_t i (set_near None c)) as [y|] eqn:Ey; [|discriminate]. inversion Hx; subst y.
-                   unfold nested_info. simpl.
+                   unfold static_near. simpl.
                    destruct c as [ci cn ck cks]. simpl in Ey. destruct (N.eqb i ci).
                    + inversion Ey; subst x. simpl. apply andb_false_r.
                    + apply first_some_in in Ey as [z [Hz Ez]]. simpl in Hkids. rewrite forallb_forall in Hkids.
@@ -193,7 +194,7 @@ Section Total.
                  assert (Hlt : length (filter (ex_in c false) (g_objs (s_g s))) < length (g_objs (s_g s))).
                  { apply (filter_length_lt _ _ (t_id c) Hcobj). unfold ex_in, ex_nids. apply mem_false.
                    apply (NoDup_kids c (find_f_NoDup _ _ _ ND Hf)). }
-                 destruct Hfuel as [H|[H _]]; lia. }
+                 destruct Hfuel as [H|[[H _]|[H _]]]; lia. }
                destruct (step_clear_ex rec g0 G0 Hrec s c _ q cs ng' tr I Q NF Hf Hf0 Hno EN R) as [s2 [E2 _]].
                exists s2, []. split; [exact E2 | exact Hsz0].
         + (* ordinary container or leaf: the children are queued *)
@@ -225,7 +226,7 @@ Section Total.
     exists r, layout_nested engine router f inf g = Ok r.
   Proof.
     induction f as [|f IH]; intros inf g G En.
-    - exfalso. destruct En as [H|[H _]]; lia.
+    - exfalso. destruct En as [H|[[H _]|[H _]]]; lia.
     - simpl.
       destruct (loop_total (layout_nested engine router f) g inf f G (layout_nested_spec engine router HE f)
                            (fun ninf ng Gn En' => IH ninf ng Gn En') En (save_order g)
